@@ -33,6 +33,10 @@ class Future(IBlockingDeref[T], IPending):
         try:
             return self._future.result(timeout=timeout)
         except _TimeoutError:
+            # A completed future whose body raised a TimeoutError of its own must
+            # re-raise it (or yield its value) rather than report a wait timeout.
+            if self._future.done():
+                return self._future.result()
             return timeout_val
 
     def done(self) -> bool:
